@@ -47,7 +47,7 @@ fn triples_of_matches(ms: &[MatchRec]) -> Vec<(usize, u32, usize)> { let mut v: 
 fn triples_of_caps(cs: &[CapRec]) -> Vec<(usize, u32, usize)> { let mut v: Vec<_> = cs.iter().map(|c| (c.pattern, c.cap, c.node)).collect(); v.sort(); v }
 fn strip_ids(ms: &[MatchRec]) -> Vec<(usize, Vec<(u32, usize)>)> { ms.iter().map(|m| (m.pattern, m.caps.clone())).collect() }
 
-const PATTERNS: [&str; 16] = [
+const PATTERNS: [&str; 19] = [
     "(identifier) @id",
     "(binary left: (_) @l right: (_) @r) @b",
     "(call fn: (identifier) @f args: (args (_) @arg)) @c",
@@ -65,6 +65,10 @@ const PATTERNS: [&str; 16] = [
     // a field that sits on a repeat (every statement of a block carries it, comments in between do not)
     "(block stmt: (_) @s) @blk2",
     "(block stmt: (expr_stmt (identifier) @first) . stmt: (_) @next)",
+    // an anchored step that the grammar guarantees (the next child of a fixed sequence) and that an extra can still defeat
+    "(let_stmt name: (name) @n . value: (_) @v)",
+    "(binary left: (_) @l . right: (_) @r)",
+    "(call fn: (identifier) @f . args: (args) @a)",
 ];
 const JSON_PATTERNS: [&str; 6] = ["(pair key: (string) @k value: (_) @v) @p", "(array (_) @e) @a", "(string (string_content)? @c) @s", "(number) @n", "[(true) (false) (null)] @lit", "(object (pair)* @ps) @o"];
 
